@@ -11,6 +11,11 @@ mod engine;
 mod layout;
 mod model;
 mod modelgen;
+mod semcheck;
+mod semforms;
+mod semgen;
+mod semprops;
+mod fsprops;
 mod synprops;
 mod lexgen;
 mod lexprops;
@@ -26,6 +31,11 @@ fn run_property(id: &str, ctx: &RunCtx) -> bool {
         "C01" => textprops::run(textprops::P::C01, ctx),
         "C02" => textprops::run(textprops::P::C02, ctx),
         "C14" => textprops::run(textprops::P::C14, ctx),
+        "C03" => pipeline::run_c03(ctx),
+        "C06" => semprops::run_c06(ctx),
+        "C07" => semprops::run_c07(ctx),
+        "C13" => semprops::run_c13(ctx),
+        "C17" => semprops::run_c17(ctx),
         "C04" => synprops::run_c04(ctx),
         "C05" => synprops::run_c05(ctx),
         "C16" => synprops::run_c16(ctx),
@@ -58,6 +68,15 @@ fn replay_input(id: &str, v: &Value) -> Result<Vec<Failure>, String> {
         "C20" => c20::replay_types(v),
         "C15" => lexprops::replay_c15(v),
         "C11" => c11::replay(v),
+        "C03" => pipeline::replay_c03(v),
+        "C06" | "C07" | "C13" => {
+            if v["choices"].is_array() {
+                semprops::replay_joint(id, v)
+            } else {
+                Err("replay needs choices".into())
+            }
+        }
+        "C17" => semprops::replay_c17(v),
         "C04" => synprops::replay_c04(v),
         "C05" => synprops::replay_c05(v),
         "C16" => synprops::replay_c16(v),
